@@ -115,7 +115,7 @@ func main() {
 					}
 				case *ast.RangeStmt:
 					if tv, ok := p.TypesInfo.Types[n.X]; ok {
-						if _, isMap := tv.Type.Underlying().(*types.Map); isMap {
+						if _, isMap := tv.Type.Underlying().(*types.Map); isMap && !isPureMapCopy(n) {
 							siteID++
 							sites = append(sites, siteInfo{siteID, "range-map", p.Fset.Position(n.Pos()).String()})
 							n.X = &ast.CallExpr{
@@ -228,6 +228,32 @@ func main() {
 	hooksPath := filepath.Join(ovDir, "verif_hooks.go")
 	os.WriteFile(hooksPath, []byte(hooks), 0o644)
 	replace[filepath.Join(*modroot, "verif_hooks.go")] = hooksPath
+	// sqlparser (a pure, single-threaded LALR parser) is excluded from race instrumentation: under
+	// -race it is 20x slower and dominates every execution; its memory accesses are private to one
+	// call and cannot take part in a race of genql.  //go:norace is ignored by non-race builds.
+	for _, p := range pkgs {
+		if sp, ok := p.Imports["github.com/vedadiyan/sqlparser/v2"]; ok {
+			for _, gf := range sp.GoFiles {
+				b, err := os.ReadFile(gf)
+				if err != nil {
+					continue
+				}
+				lines := strings.Split(string(b), "\n")
+				var outl []string
+				for _, l := range lines {
+					if strings.HasPrefix(l, "func ") {
+						outl = append(outl, "//go:norace")
+					}
+					outl = append(outl, l)
+				}
+				dst := filepath.Join(ovDir, "sqlparser", filepath.Base(gf))
+				os.MkdirAll(filepath.Dir(dst), 0o755)
+				os.WriteFile(dst, []byte(strings.Join(outl, "\n")), 0o644)
+				replace[gf] = dst
+			}
+			break
+		}
+	}
 	// virtual package vrt
 	absVrt, _ := filepath.Abs(*vrtDir)
 	ents, err := os.ReadDir(absVrt)
@@ -319,4 +345,37 @@ func addImport(f *ast.File, name, path string) {
 	decl := &ast.GenDecl{Tok: token.IMPORT, Specs: []ast.Spec{spec}}
 	f.Decls = append([]ast.Decl{decl}, f.Decls...)
 	f.Imports = append(f.Imports, spec)
+}
+
+
+// isPureMapCopy recognises `for k, v := range m { dst[k] = v }`: the iterations write distinct
+// keys of another map and commute, so the iteration order is unobservable and the loop is left
+// alone (no choice point).
+func isPureMapCopy(n *ast.RangeStmt) bool {
+	k, ok1 := n.Key.(*ast.Ident)
+	v, ok2 := n.Value.(*ast.Ident)
+	if !ok1 || !ok2 || k.Name == "_" || v.Name == "_" || n.Body == nil || len(n.Body.List) != 1 {
+		return false
+	}
+	as, ok := n.Body.List[0].(*ast.AssignStmt)
+	if !ok || as.Tok != token.ASSIGN || len(as.Lhs) != 1 || len(as.Rhs) != 1 {
+		return false
+	}
+	ix, ok := as.Lhs[0].(*ast.IndexExpr)
+	if !ok {
+		return false
+	}
+	dst, ok := ix.X.(*ast.Ident)
+	if !ok {
+		return false
+	}
+	if src, isIdent := n.X.(*ast.Ident); isIdent && src.Name == dst.Name {
+		return false
+	}
+	ki, ok := ix.Index.(*ast.Ident)
+	if !ok || ki.Name != k.Name {
+		return false
+	}
+	vi, ok := as.Rhs[0].(*ast.Ident)
+	return ok && vi.Name == v.Name
 }
